@@ -367,14 +367,23 @@ def payload_entry_limits(u: U):
            types={"chunk": lambda nm: SBytes.fresh(nm, register=False)})
     out = u.call(f, p, u.bytes("chunk"))
     limit = Ite(st0 == TRAILERS, p._max_field_size, p._max_line_size)
-    too_long = And(st0 != CHUNK, blen(tail0) > limit)
+    # the length of a line excludes its terminator: a trailing CR may be the first half of CRLF and is not counted
+    # (the complete-line path measures the line up to the CR), so at most limit + 1 bytes are retained
+    content = blen(tail0) - Ite(tail0.byte_at(blen(tail0) - 1) == 13, 1, 0)
+    too_long = And(st0 != CHUNK, content > limit)
     if reached:
         u.check("C10.limit.partial_line_checked", Not(too_long),
                 "parsing continues past the stored partial line only if it is within the limit of its line kind "
                 "(chunk-size line: max_line_size, trailer line: max_field_size)")
     elif not out.ok:
-        u.check("C10.limit.partial_line_error", And(isinstance(out.exc, E.LineTooLong), too_long),
-                "the only early refusal is LineTooLong for an over-long partial line")
+        u.check("C10.limit.partial_line_error", isinstance(out.exc, E.LineTooLong),
+                "the only early refusal is LineTooLong (for an over-long partial line: next obligation)")
+        if isinstance(out.exc, E.LineTooLong):
+            u.check("C03.limit.chunk_partial_line_not_early", too_long,
+                    "a stored partial chunk-size / trailer line is refused only if no continuation can make it acceptable: "
+                    "a line of exactly the limit cut between its CR and LF is the same line as in one read",
+                    known=[("F3f", And(st0 != CHUNK, blen(tail0) == limit + 1))],
+                    witness={"tail_len": blen(tail0), "limit": limit, "state": st0})
 
 
 FN_HP = "http_parser:HttpParser.feed_data"
